@@ -97,6 +97,16 @@ var (
 		Text: "the functions documented in docs/stdlib-{text,math,times,base64,hex}.md equal the function keys of the module tables, and each documented parameter count is accepted by the implementation (finite-domain evaluation of the len(args) guard)"}
 	rADPT5 = &Rule{Name: "ADPT.5", Floor: 9, Fn: ruleADPT5,
 		Text: "the enum source module embedded in source_modules.go equals srcmod_enum.tengo; BuiltinModules binds each module name to the table of the same stem"}
+	rJSON1 = &Rule{Name: "JSON.1", Floor: 25, Fn: ruleJSON1,
+		Text: "finite-domain evaluation: every state function of stdlib/json's scanner has the same transition table (return code, next state, stack effect, endTop, error) over 256 bytes × 7 parse-stack summaries as the same-named state function of the building toolchain's encoding/json; the reference's nesting-depth limit is present"}
+	rJSON2 = &Rule{Name: "JSON.2", Floor: 12, Fn: ruleJSON2,
+		Text: "Decode validates the whole input and returns the error before any decoding step, feeds the decoder the same bytes with a reset scanner; checkValid steps every byte and eof; every explicit panic in the package is a decoder phase panic; decodeState is created only in Decode"}
+	rJSON3 = &Rule{Name: "JSON.3", Floor: 2, Fn: ruleJSON3,
+		Text: "a number literal is typed float iff scanWhile saw '.', 'e' or 'E' (exactly these three comparisons), else ParseInt(…,10,64); null/true/false/string map to undefined/True/False/String"}
+	rJSON4 = &Rule{Name: "JSON.4", Floor: 4, Fn: ruleJSON4,
+		Text: "table-vs-table with encoding/json: the decoder's escape table and \\uXXXX reader, the encoder's safeSet; the encoder has the short escapes and the \\u00XX fallback"}
+	rJSON5 = &Rule{Name: "JSON.5", Floor: 9, Fn: ruleJSON5,
+		Text: "Encode has an arm for every type the property names; undefined → null; bool through IsFalsy with the right polarity"}
 )
 
 func allProperties() []*Property {
@@ -161,6 +171,10 @@ func allProperties() []*Property {
 			Decided:    "the VM's tail-call predicate is exactly 'next is RET or POP;RET'; the reuse path grows no frame and overwrites parameter slots directly; the compiler places RET directly after the documented tail positions.",
 			NotDecided: "that deep recursion terminates with the right value.",
 			Rules:      []*Rule{rTAIL, rCODEC3}},
+		{ID: "C18",
+			Decided:    "the validity automaton equals encoding/json's state by state; validate-before-decode; number typing by '.', 'e', 'E'; escape tables equal the reference's; encoder arms for all named types.",
+			NotDecided: "round-trip equality of values; number and string values after decoding; float formatting.",
+			Rules:      []*Rule{rJSON1, rJSON2, rJSON3, rJSON4, rJSON5}},
 		{ID: "C19",
 			Decided:    "the wiring of the stdlib modules: adapters do what their function type says; table keys name the Go function/constant they wrap; hand-written wrappers call the function their key names with arguments in order; documentation and tables agree; generated source is in sync.",
 			NotDecided: "the Go functions' results (they are the specification); value-level behaviour of hand-written wrappers (size limits, defaults).",
